@@ -322,3 +322,11 @@ def bytes_ctor(a):
 
 def overflow_paths(n):
     return n.to_bytes(1, byteorder="big", signed=False)
+
+
+def join_genexp(a, b):
+    return b"".join(bytes([x]) for x in (a, b, a)), ",".join(str(k) for k in range(3))
+
+
+def bool_index(a):
+    return ("no", "yes")[a > 3], [10, 20][bool(a)]
